@@ -42,8 +42,15 @@ VF_MAIN
   for (i = 0; i < WIN; ++i) inmem[i] = (unsigned)i == in_t? (sample_t)1 : (sample_t)0;
   s.fifo.data = (char *)inmem; s.fifo.allocation = sizeof(inmem); s.fifo.item_size = sizeof(sample_t); s.fifo.begin = 0; s.fifo.end = sizeof(inmem);
   out.data = (char *)outmem; out.allocation = sizeof(outmem); out.item_size = sizeof(sample_t);
-  s.pre = pre; s.pre_post = 4 * VF_HN; s.input_size = 2; s.n = VF_HN; s.coefs = KTAB;      /* cr.c:367-372 */
-  KFN(&s, &out);
+  { /* the kernel is taken from the REAL selection table half_firs[] (what find_half_fir hands to _soxr_init), row with VF_HN coefficients */
+    unsigned r; half_fir_info_t const * row = 0;
+    for (r = 0; r < array_length(half_firs); ++r) if (half_firs[r].num_coefs == VF_HN) row = &half_firs[r];
+    VF_ASSERT(row != 0, "half_firs[] has a row with this number of coefficients");
+    VF_ASSERT(row->coefs == (real const *)KTAB, "the row points at the coefficient table of its length (C01/C02)");
+    s.pre = pre; s.pre_post = 4 * VF_HN; s.input_size = 2; s.n = row->num_coefs; s.coefs = row->coefs;      /* cr.c:367-372 */
+    row->fn(&s, &out);
+    (void)KFN;
+  }
   VF_ASSERT(fifo_occupancy(&out) >= 1, "one output for two inputs");
   y = outmem[0];
   d = (int)in_t - pre; if (d < 0) d = -d;
